@@ -96,6 +96,18 @@ end
     about; what e.g. the `default:` branch does to a defined *slice* type, outside the domain) -/
 example : (exec .assign (.slice (some 3) [1, 2]) 10).1.ids = [3] := by decide
 
+/-- F26 (known finding): a bare type-parameter field is classified `Shape.scalar` — true of a field of `Box[int]`,
+    false of a field of `Box[Item]` with `type Item struct{ Tags []int }`.  The statement chosen for it is the
+    assignment whatever the instantiation, and on such a value the assignment keeps the backing store: the
+    copy shares `Tags`.  `HasShape v s` in `exec_choose` is the hypothesis that excludes these instantiations
+    (the value of a `.scalar` field must be a scalar), so the theorems of this file are about instantiations with
+    scalar types only — the other ones are the finding, replayed on the real generator by corpus/C17/F26*.json. -/
+theorem typeparam_field_assignment_shares :
+    (exec (choose .scalar) (.struct [.slice (some 3) [1, 2]]) 10).1.ids = [3] ∧
+    ¬ HasShape (.struct [.slice (some 3) [1, 2]]) .scalar := by
+  refine ⟨by decide, ?_⟩
+  simp [HasShape]
+
 /-- `DeepCopy` of nil is nil: a nil slice or map field stays nil -/
 theorem copy_nil_fields (es : List Nat) (ms : List (Nat × Nat)) (next : Nat) :
     (deepCopy (.slice none es) next).1 = .slice none es ∧ (deepCopy (.map none ms) next).1 = .map none ms := by
